@@ -589,6 +589,10 @@ class G:
         ("guard-assign-names", "let u = (from u | filter a > 1 | take 4)\nfrom t\njoin u (==id)\nselect {t.a, u.d}"),
         ("1f1ce08", "from t\ngroup {a} (aggregate {x6 = count b})\nselect {a}\ngroup {a} (take 1)\naggregate {x9 = count this}"),
         ("1f1ce08", "from t\ngroup {a, g} (aggregate {m = max b})\nselect {a, g}\ngroup {a, g} (take 1)\naggregate {n = count this}"),
+        ("1cedbd3", "from t\ntake 4294967296"), ("1cedbd3", "from t\ntake 3..4294967300"), ("1cedbd3", "from t\nsort a\ntake 2..\ntake ..4294967296"),
+        ("4cb0b4e", "from t\ngroup this (derive {r = row_number this})"), ("4cb0b4e", "from t\nselect {a, g}\ngroup this (derive {r = row_number this})"),
+        ("91a6a23", "from t\nwindow range:-1..1 (derive {w = sum a})"), ("91a6a23", "from t\nwindow range:-1..1 (sort {a, b} | derive {w = sum a})"),
+        ("91a6a23", "from t\ngroup {g} (window range:-2..0 (derive {w = max a}))"), ("91a6a23", "from t\nwindow range:-1..1 (sort a | derive {w = sum a})"),
         ("006e33c", "from t\nderive {x = that}"),
         ("006e33c", "from t\njoin u (==id)\nfilter that.a > 1"),
         ("7f02b48", "module m {\n  let x = (from t | select {a})\n  module n {\n    let y = (from x | take 2)\n  }\n}\nfrom m.n.y"),
